@@ -143,6 +143,8 @@ def run_schedule(kind, scenario, k, fresh=False):
             ta.join(0.5)
             b_resume.set()
         ta.join(3.0); tb.join(3.0)
+        if ta.is_alive() or tb.is_alive():
+            ta.join(25.0); tb.join(25.0)      # a loaded machine is slow, a deadlock stays
         problem = None
         if ta.is_alive() or tb.is_alive():
             problem = ("wedged", "thread %s never returned (A parked before line %d = %s, then resumed)" % ("A" if ta.is_alive() else "B", k, parked_at[0]))
@@ -154,6 +156,8 @@ def run_schedule(kind, scenario, k, fresh=False):
             # afterwards the oracle must be usable from a third thread
             done = []
             tc = threading.Thread(target=lambda: done.append(o.create_trial("C").status), daemon=True); tc.start(); tc.join(2.0)
+            if tc.is_alive():
+                tc.join(25.0)
             if tc.is_alive():
                 problem = ("locked-after", "after both calls finished%s a third thread's create_trial blocks forever (A parked before line %d = %s)" % (
                     " (one of them raised)" if "raise" in scenario else "", k, parked_at[0]))
@@ -168,12 +172,14 @@ def different_oracles_independent():
     try:
         o1 = make_oracle("random", d1); o2 = make_oracle("random", d2)
         gate = threading.Event(); orig = o1.populate_space
-        o1.populate_space = lambda tid: (gate.wait(3), orig(tid))[1]
+        o1.populate_space = lambda tid: (gate.wait(40), orig(tid))[1]
         t1 = threading.Thread(target=lambda: o1.create_trial("a"), daemon=True); t1.start(); time.sleep(0.05)
         out = []
         t2 = threading.Thread(target=lambda: out.append(o2.create_trial("b").status), daemon=True); t2.start(); t2.join(1.0)
+        if t2.is_alive():
+            t2.join(20.0)
         ok = not t2.is_alive()
-        gate.set(); t1.join(3)
+        gate.set(); t1.join(30)
         return None if ok else ("cross-oracle-block", "create_trial on one oracle waited for a call in progress on another oracle")
     finally:
         shutil.rmtree(d1, ignore_errors=True); shutil.rmtree(d2, ignore_errors=True)
